@@ -200,21 +200,17 @@ def install():
         return
     _INSTALLED = True
 
-    # ---- Task.do_work --------------------------------------------------
-    o_do_work = ORIG["Task.do_work"] = Task.do_work
-
-    def do_work(self, env, machine, predecessor_allocations=None):
-        p = _probe_of(env)
-        if p is None:
-            return (yield from o_do_work(self, env, machine,
-                                         predecessor_allocations))
-        r = p.rec("do_work", env, task=self.id, machine=machine.id,
-                  preds=[t.id for t in (predecessor_allocations or [])],
-                  ast=None, aft=None, task_obj=self)
-        p.live_dw.setdefault(machine.id, []).append(r)
+    # Every wrapper of a generator method calls the original AT CALL TIME
+    # (exactly when the unwrapped code would) and only wraps the iteration:
+    # a wrapper that is itself a generator function would postpone the call
+    # to the moment the process starts and could hide (or create) behaviour
+    # that depends on what is evaluated eagerly.
+    def _iterate(p, inner, make_rec, on_start=None, on_end=None, env=None):
+        r = make_rec()
+        if on_start:
+            on_start(r)
         try:
-            res = yield from o_do_work(self, env, machine,
-                                       predecessor_allocations)
+            res = yield from inner
             return res
         except GeneratorExit:
             raise
@@ -224,8 +220,31 @@ def install():
         finally:
             if not p.done:
                 r["t1"], r["e1"] = env.now, p.n_events
-                r["ast"], r["aft"] = self.ast, self.aft
-                p.live_dw[machine.id].remove(r)
+                if on_end:
+                    on_end(r)
+
+    # ---- Task.do_work --------------------------------------------------
+    o_do_work = ORIG["Task.do_work"] = Task.do_work
+
+    def do_work(self, env, machine, predecessor_allocations=None):
+        inner = o_do_work(self, env, machine, predecessor_allocations)
+        p = _probe_of(env)
+        if p is None or not hasattr(inner, "send"):
+            return inner
+
+        def make():
+            return p.rec("do_work", env, task=self.id, machine=machine.id,
+                         preds=[t.id for t in
+                                (predecessor_allocations or [])],
+                         ast=None, aft=None, task_obj=self)
+
+        def start(r):
+            p.live_dw.setdefault(machine.id, []).append(r)
+
+        def end(r):
+            r["ast"], r["aft"] = self.ast, self.aft
+            p.live_dw[machine.id].remove(r)
+        return _iterate(p, inner, make, start, end, env)
     Task.do_work = do_work
 
     o_calc = ORIG["Task._calc_task_delay"] = Task._calc_task_delay
@@ -244,59 +263,49 @@ def install():
     def allocate_task_to_cluster(self, task, machine,
                                  predecessor_allocations=None,
                                  observation=None, ingest=False, c='default'):
+        inner = o_alloc(self, task, machine, predecessor_allocations,
+                        observation, ingest, c)
         p = _probe_of(self.env)
-        if p is None:
-            return (yield from o_alloc(self, task, machine,
-                                       predecessor_allocations, observation,
-                                       ingest, c))
-        res = self._clusters[c]['resources']
-        pool = ("available" if machine in res['available'] else
-                "ingest" if machine in res['ingest'] else
-                "occupied" if machine in res['occupied'] else
-                next(("idle:%s" % k for k, v in res['idle'].items()
-                      if machine in v), "nowhere"))
-        r = p.rec("alloc", self.env, task=task.id, machine=machine.id,
-                  observation=observation, ingest=bool(ingest), pool=pool,
-                  preds=[t.id for t in (predecessor_allocations or [])],
-                  released=None, task_obj=task)
-        p.live_alloc.setdefault(machine.id, []).append(r)
-        try:
-            out = yield from o_alloc(self, task, machine,
-                                     predecessor_allocations, observation,
-                                     ingest, c)
-            return out
-        except GeneratorExit:
-            raise
-        except BaseException as e:
-            r["exc"] = repr(e)
-            raise
-        finally:
-            if not p.done:
-                r["t1"], r["e1"] = self.env.now, p.n_events
-                p.live_alloc[machine.id].remove(r)
+        if p is None or not hasattr(inner, "send"):
+            return inner
+
+        def make():
+            res = self._clusters[c]['resources']
+            pool = ("available" if machine in res['available'] else
+                    "ingest" if machine in res['ingest'] else
+                    "occupied" if machine in res['occupied'] else
+                    next(("idle:%s" % k for k, v in res['idle'].items()
+                          if machine in v), "nowhere"))
+            return p.rec("alloc", self.env, task=task.id,
+                         machine=machine.id, observation=observation,
+                         ingest=bool(ingest), pool=pool,
+                         preds=[t.id for t in
+                                (predecessor_allocations or [])],
+                         released=None, task_obj=task)
+
+        def start(r):
+            p.live_alloc.setdefault(machine.id, []).append(r)
+
+        def end(r):
+            p.live_alloc[machine.id].remove(r)
+        return _iterate(p, inner, make, start, end, self.env)
     Cluster.allocate_task_to_cluster = allocate_task_to_cluster
 
     o_prov_ing = ORIG["Cluster.provision_ingest_resources"] = \
         Cluster.provision_ingest_resources
 
     def provision_ingest_resources(self, demand, observation, c='default'):
+        inner = o_prov_ing(self, demand, observation, c)
         p = _probe_of(self.env)
-        if p is None:
-            return (yield from o_prov_ing(self, demand, observation, c))
-        r = p.rec("prov_ingest", self.env, demand=demand,
-                  observation=observation.name,
-                  available=[m.id for m in
-                             self._clusters[c]['resources']['available']])
-        try:
-            return (yield from o_prov_ing(self, demand, observation, c))
-        except GeneratorExit:
-            raise
-        except BaseException as e:
-            r["exc"] = repr(e)
-            raise
-        finally:
-            if not p.done:
-                r["t1"], r["e1"] = self.env.now, p.n_events
+        if p is None or not hasattr(inner, "send"):
+            return inner
+
+        def make():
+            return p.rec("prov_ingest", self.env, demand=demand,
+                         observation=observation.name,
+                         available=[m.id for m in self._clusters[c][
+                             'resources']['available']])
+        return _iterate(p, inner, make, None, None, self.env)
     Cluster.provision_ingest_resources = provision_ingest_resources
 
     o_pbr = ORIG["Cluster.provision_batch_resources"] = \
@@ -337,24 +346,31 @@ def install():
 
         @functools.wraps(orig)
         def w(self, *a, **k):
+            inner = orig(self, *a, **k)
             p = _probe_of(self.env)
-            if p is None:
-                return (yield from orig(self, *a, **k))
+            if p is None or not hasattr(inner, "send"):
+                return inner
             arg = a[0] if a else None
-            r = p.rec(kind, self.env,
-                      arg=getattr(arg, "name", arg), ret=None)
-            try:
-                out = yield from orig(self, *a, **k)
-                r["ret"] = out
-                return out
-            except GeneratorExit:
-                raise
-            except BaseException as e:
-                r["exc"] = repr(e)
-                raise
-            finally:
-                if not p.done:
-                    r["t1"], r["e1"] = self.env.now, p.n_events
+
+            def make():
+                return p.rec(kind, self.env,
+                             arg=getattr(arg, "name", arg), ret=None)
+
+            def gen():
+                r = make()
+                try:
+                    out = yield from inner
+                    r["ret"] = out
+                    return out
+                except GeneratorExit:
+                    raise
+                except BaseException as e:
+                    r["exc"] = repr(e)
+                    raise
+                finally:
+                    if not p.done:
+                        r["t1"], r["e1"] = self.env.now, p.n_events
+            return gen()
         setattr(Buffer, name, w)
 
     _wrap_buffer_gen("ingest_data_stream", "ingest_stream")
@@ -397,43 +413,35 @@ def install():
     o_at = ORIG["Scheduler.allocate_tasks"] = Scheduler.allocate_tasks
 
     def allocate_tasks(self, observation):
+        inner = o_at(self, observation)
         p = _probe_of(self.env)
-        if p is None:
-            return (yield from o_at(self, observation))
-        r = p.rec("alloc_tasks", self.env,
-                  observation=getattr(observation, "name", None))
-        try:
-            return (yield from o_at(self, observation))
-        except GeneratorExit:
-            raise
-        except BaseException as e:
-            r["exc"] = repr(e)
-            raise
-        finally:
-            if not p.done:
-                r["t1"], r["e1"] = self.env.now, p.n_events
+        if p is None or not hasattr(inner, "send"):
+            return inner
+
+        def make():
+            return p.rec("alloc_tasks", self.env,
+                         observation=getattr(observation, "name", None))
+        g = _iterate(p, inner, make, None, None, self.env)
+        # the tie-promotion seam recognises these processes by generator id
+        p.alloc_task_gens[id(g)] = getattr(observation, "name", "?")
+        p._keep = getattr(p, "_keep", [])
+        p._keep.append(g)
+        return g
     Scheduler.allocate_tasks = allocate_tasks
 
     o_ai = ORIG["Scheduler.allocate_ingest"] = Scheduler.allocate_ingest
 
     def allocate_ingest(self, observation, pipelines, planner,
                         max_ingest=None, c='default'):
+        inner = o_ai(self, observation, pipelines, planner, max_ingest, c)
         p = _probe_of(self.env)
-        if p is None:
-            return (yield from o_ai(self, observation, pipelines, planner,
-                                    max_ingest, c))
-        r = p.rec("alloc_ingest", self.env, observation=observation.name)
-        try:
-            return (yield from o_ai(self, observation, pipelines, planner,
-                                    max_ingest, c))
-        except GeneratorExit:
-            raise
-        except BaseException as e:
-            r["exc"] = repr(e)
-            raise
-        finally:
-            if not p.done:
-                r["t1"], r["e1"] = self.env.now, p.n_events
+        if p is None or not hasattr(inner, "send"):
+            return inner
+
+        def make():
+            return p.rec("alloc_ingest", self.env,
+                         observation=observation.name)
+        return _iterate(p, inner, make, None, None, self.env)
     Scheduler.allocate_ingest = allocate_ingest
 
     # ---- Telescope -------------------------------------------------------
@@ -455,35 +463,6 @@ def install():
             p.call("finish_obs", self.env.now, obs=observation.name)
         return o_fo(self, observation)
     Telescope.finish_observation = finish_observation
-
-
-def register_alloc_tasks_process(probe, env):
-    """Map generator ids of live allocate_tasks processes to observation
-    names (used by the tie-promotion seam).  Called from the Scheduler.run
-    wrapper via env.process interception is not needed: we discover them
-    lazily from the active process when the wrapper body starts."""
-
-
-# tie promotion needs to recognise allocate_tasks processes: intercept
-# env.process for generators created by the wrapper above.
-_o_env_process = simpy.Environment.process
-
-
-def _tagging_process(self, generator):
-    proc = _o_env_process(self, generator)
-    p = getattr(self, "probe", None)
-    if p is not None and not p.done:
-        code = getattr(generator, "gi_code", None)
-        if code is not None and code.co_name == "allocate_tasks":
-            fl = generator.gi_frame.f_locals if generator.gi_frame else {}
-            obs = fl.get("observation")
-            p.alloc_task_gens[id(generator)] = getattr(obs, "name", "?")
-            p._keep = getattr(p, "_keep", [])
-            p._keep.append(generator)      # keep ids unique for the run
-    return proc
-
-
-ProbeEnvironment.process = _tagging_process
 
 
 # --------------------------------------------------------------------------
